@@ -9,7 +9,7 @@ def labels : List (CcType × String) := [
   (.public_, "public"), (.private_, "private"), (.noCache, "no-cache"), (.noStore, "no-store"),
   (.noTransform, "no-transform"), (.mustRevalidate, "must-revalidate"), (.proxyRevalidate, "proxy-revalidate"),
   (.maxAge, "max-age"), (.sMaxage, "s-maxage"), (.maxStale, "max-stale"), (.minFresh, "min-fresh"),
-  (.onlyIfCached, "only-if-cached"), (.staleIfError, "stale-if-error"), (.immutable, "immutable"), (.other, "other")]
+  (.onlyIfCached, "only-if-cached"), (.staleIfError, "stale-if-error"), (.immutable, "immutable")]
 
 def num (c : Cc) (t : CcType) : String := if c.isSet t then toString (c.getNum t) else "-"
 
